@@ -293,3 +293,5 @@ def _round8(ctx):
     with ctx.rule('R01.15', "no frame is cut off by the end of the loop: the client's Close travels as ConnectionClose (which seals), and a handshake that ends in ServerClosing is done only when the buffer is flushed (shared with C08, C16)", floor=2) as r:
         A.include(ctx, r, 'c08', 'R08.3', pick=('message-kind',))
         A.include(ctx, r, 'c16', 'R16.4', pick=('done-table',))
+    with ctx.rule('R01.16', "a CloseOk answering a refusal during the handshake is queued before the buffer is sealed (shared with C08)", floor=1) as r:
+        A.include(ctx, r, 'c08', 'R08.1', pick=('handshake:closeok-seal-state',))
